@@ -1,6 +1,7 @@
 import Mdsort.Proofs.World
 import Mdsort.Proofs.WorldStdinExample
 import Mdsort.Proofs.WorldWholeEx
+import Mdsort.Proofs.WorldDryF21
 
 /-!
 # C02 - a crash at any instant never leaves a message without an intact copy
@@ -16,7 +17,10 @@ namespace Mdsort.Props
 open Mdsort Mdsort.Model
 
 /-- Process kill: after every call of the execution of an action list, under every fault plan,
-some entry is bound to a complete version of the message. -/
+some entry is bound to a complete version of the message.
+
+(Audit au1: literally the same statement and proof term as `C01_no_loss`; `Proofs.Intact` is existential over ALL entries of
+the world - see the note there: a byte-identical other file satisfies it.) -/
 theorem C02_crash_any_prefix (env : PEnv) (ml : MatchList) (st : ExecSt) (w : World) (orig : Bytes) (plan : Plan)
     (hs : Proofs.Start w st orig) (hd : Proofs.NoDiscard ml) :
     ∀ w' ∈ (runPlan plan (matchesExec env ml st) w 0 []).2.2, Proofs.Intact w' (Proofs.stages st.ms orig) :=
@@ -24,11 +28,22 @@ theorem C02_crash_any_prefix (env : PEnv) (ml : MatchList) (st : ExecSt) (w : Wo
 
 /-- Power failure: the same holds for the content on stable storage - whenever a message is copied
 rather than renamed, the copy has been flushed (fflush, fsync, fclose all successful) before the
-original name is removed. -/
+original name is removed.
+
+What is proved, exactly (audit au1): in the world after EVERY call some entry is bound to a file whose `durable` field (content
+as of its last successful `fsync`) is a complete version.  The model has no crash transition: the state after a power failure -
+the directory entries of some EARLIER call combined with the durable contents of the LATEST call, plus possibly more - is not
+constructed, and the step from this per-call invariant to those mixed states (files are written once and never shrink, see
+the header of this file) is an argument in prose, not a theorem.  As in `C01_no_loss` the entry is not tied to the message. -/
 theorem C02_power_failure (env : PEnv) (ml : MatchList) (st : ExecSt) (w : World) (orig : Bytes) (plan : Plan)
     (hs : Proofs.Start w st orig) (hd : Proofs.NoDiscard ml) :
     ∀ w' ∈ (runPlan plan (matchesExec env ml st) w 0 []).2.2, Proofs.IntactDurable w' (Proofs.stages st.ms orig) :=
   Proofs.exec_always_durable env ml st w orig plan hs hd
+
+/-- Non-vacuity of `C02_crash_any_prefix` / `C02_power_failure`: the start situation of Proofs/WorldSingleEx.lean
+(`/m/new/1.h` open at handle 4, source directory at handle 3) and the list "move to `/m/cur`, then label". -/
+example : Proofs.Start Proofs.exWorld Proofs.exSt Proofs.exOrig ∧ Proofs.NoDiscard Proofs.exList :=
+  ⟨Proofs.ex_startAt.start, Proofs.ex_noDiscard⟩
 
 /-- MDA contract (stdin mode, `mdsort -`): for EVERY fault plan - any number of failed or short calls,
 including failures inside the cleanup of the spool - exit status 0 implies `Proofs.Delivered`:
@@ -39,7 +54,18 @@ contains a move/flag/flags action and no destination is the spool itself - some 
 OTHER than the spool is, in the final world, bound to a file whose DURABLE content is the message as
 received or as rewritten by label / add-header.  (A rule set without a move - label / add-header /
 exec / reject only - rewrites or pipes the spool copy, which the cleanup then removes: status 0 or 1,
-nothing stored; so does a discard, and `-d`.  These are the cases the hypotheses exclude.)  Hypotheses: `-` was given, not `-n`, exactly one `stdin` block (any number
+nothing stored; so does a discard, and `-d`.  These are the cases the hypotheses exclude.)
+
+Audit au1, remarks on `Proofs.Delivered`: (1) the name `name0` of the spool file is EXISTENTIAL (`∃ name0 fl, (∃ k, name0 =
+gennameName env none k) ∧ ...`), not the name the run used: should the verdict differ between counter values `k` (it depends on the name only
+through the message path handed to the evaluator - no theorem says it does not), the `k` for which nothing matches makes
+`Delivered` hold whatever the run did.  (2) The escape "no move in the list" is not an academic one: on the real binary
+`stdin { match all label "x" }` (and `exec "true"`) exits 0 with the mail stored nowhere (replayed, see
+design-notes/audit-C01-C06.md) - by the letter of C04 that is F27's outcome through a MATCHED rule; KNOWN_FINDINGS lists F27 for
+unmatched messages only.  (3) The stored copy is "some entry of a directory other than the spool with these durable bytes":
+a byte-identical file that was already there satisfies it.
+
+Hypotheses: `-` was given, not `-n`, exactly one `stdin` block (any number
 of `maildir` blocks), descriptor 0 holds `input`, `mkdtemp` returns a fresh directory.
 
 The rules are evaluated inside the run: `command`, `isdirectory` and file-time `date` conditions ask the operating system
@@ -107,6 +133,17 @@ example :
   C02_stdin_exit0 _ _ _ _ _ _ _ _ rfl rfl Proofs.StdinExample.ex_stdinExprs Proofs.StdinExample.ex_stdinIs
     Proofs.StdinExample.ex_fresh
 
+/-- The premise `r.1.1 = 0` of the conclusion holds on that run (added by audit au1; evaluated): exit status 0, so
+`Delivered` is really asserted there. -/
+example : (runPlan Plan.none (mainP Proofs.StdinExample.env0 Proofs.StdinExample.orc0 true Proofs.StdinExample.conf0 []
+      Proofs.StdinExample.input0) Proofs.StdinExample.w0 0 []).1.1 = 0 := by
+  rw [(Proofs.dry_runNone_eq _ _ 0 []).1, Proofs.Own.mainP_eq]
+  unfold Proofs.Own.mainK
+  simp only [Proofs.StdinExample.conf0, Proofs.Own.blocks_cons, Proofs.Own.blocks_nil, Proofs.Own.paths_cons,
+    Proofs.Own.paths_nil, Proofs.dry_walk_G _ _ Proofs.StdinExample.expr0 (by decide)]
+  simp only [Proofs.StdinExample.expr0, eval]
+  decide +kernel
+
 example : Proofs.StdinExample.deliversB (Proofs.World.spoolPath Proofs.StdinExample.env0)
     (Proofs.World.stdinVerdict Proofs.StdinExample.env0 Proofs.StdinExample.orc0 Proofs.StdinExample.expr0
       Proofs.StdinExample.input0 Proofs.StdinExample.path0 MFlags.empty) = true :=
@@ -165,6 +202,18 @@ theorem C02_main_power_failure (env : PEnv) (orc : EvalOracles) (confOk : Bool) 
   obtain ⟨d, n, fid, f, h1, _, h3, h4, h5⟩ :=
     Proofs.whole_main_no_loss env orc confOk conf files input w plan hm hnd hreg w' hw' dir name c hc
   exact ⟨d, n, fid, f, h1, h3, h4, h5⟩
+
+/-- Non-vacuity of `C02_message_power_failure` and `C02_walk_power_failure` (same hypotheses as `C01_message_no_loss` /
+`C01_walk_no_loss`): the first message of the two-message world, `/m/new` open at handle 3. -/
+example : Proofs.exMd.dirH = some 3 ∧ Proofs.wholeExWorldW.dirPath 3 = some Proofs.exMd.path ∧
+    pathjoin PATH_MAX Proofs.exMd.root (subdirName Proofs.exMd.subdir) = some Proofs.exMd.path ∧
+    Proofs.wholeExSt.files.get Proofs.exMd.path Proofs.exName = some Proofs.exOrig ∧
+    Proofs.wholeExWorldW.lookup Proofs.exMd.path Proofs.exName = some 0 ∧ 0 < Proofs.wholeExWorldW.nextFid ∧
+    Proofs.wholeExWorldW.file 0 = some ⟨Proofs.exOrig, Proofs.exOrig⟩ ∧
+    Proofs.WholeNoDiscard Proofs.exEnv Proofs.wholeExOrc Proofs.wholeExExpr ∧
+    Proofs.WholeReg Proofs.wholeExWorldW Proofs.wholeExSt.files ∧ Proofs.WholeMdOk Proofs.wholeExWorldW Proofs.exMd :=
+  ⟨rfl, by decide, by decide, by decide, by decide, by decide, by decide,
+   Proofs.whole_noDiscard_of_syntax _ _ _ (by decide), Proofs.wholeEx_regW, Proofs.wholeEx_mdOk⟩
 
 /-- Non-vacuity (the two-message world of Proofs/WorldWholeEx.lean). -/
 example : Proofs.exEnv.stdinMode = false ∧
